@@ -258,7 +258,11 @@ func xLine(c *E2ECase, res *E2EResult, s int) (string, string, bool) {
 			continue
 		}
 		if e.Class == "idx-put" {
-			puts = append(puts, keyList(append([]int{}, e.PutList...)))
+			b := keyList(append([]int{}, e.PutList...))
+			if b == "-" {
+				b = "e" // an empty index body (distinct from "no PUT at all")
+			}
+			puts = append(puts, b)
 		}
 		f := 0
 		if e.Fail {
